@@ -46,7 +46,7 @@ try:
     c = subprocess.run(["/verif/bin/govc", "check", prop, "--repo", repo, "--evidence", os.path.join(tmp, "ev")], capture_output=True, text=True, env=cenv)
     ran.append("VERIF_ROOT=<scratch> /verif/bin/govc check %s --repo <scratch copy with patch applied>" % prop)
     detected = c.returncode != 0
-    obls = [l for l in c.stdout.splitlines() if l.startswith("FAILED-OBLIGATION") or l.startswith("VIOLATION")]
+    obls = [l for l in c.stdout.splitlines() if l.startswith("FAILED-OBLIGATION") or l.startswith("FAILED-BOUNDED-CHECK") or l.startswith("VIOLATION")]
     meta.update({"property": prop, "confirmed": {"demo_passes_on_unmodified": clean_pass, "demo_fails_with_change": seeded_fail, "package_tests_pass_with_change": suite_pass},
                  "what_i_ran": ran, "check_detects": detected, "check_output": obls[:6]})
     json.dump(meta, open(os.path.join(dst, "meta.json"), "w"), indent=1)
